@@ -8,4 +8,5 @@ Extraction "../ocaml/c15/model.ml"
   Z.add Z.mul Z.sub Z.div_eucl Z.compare Z.of_nat Z.to_nat
   load_octree query fuel_bound level_range res_level wf_treeb pts_okb csys_okb lookup_pts exact_grid
   sort_off groups byte_queries chunk_table fetch_and_decode rint grid child overlaps
-  sort_q apartb fetch_and_decode_queue ensure_3d_st query_st session query_fresh.
+  sort_q apartb fetch_and_decode_queue ensure_3d_st query_st session query_fresh
+  traverse_rd query_rd reader_session open_cache dict_view n_fetches.
